@@ -133,6 +133,7 @@ ObsInit ==
     icache |-> EmptyFn,     \* introspection: type id -> TRUE once a queried connection has answered Ok
     iq |-> EmptyFn,         \* introspection: type id -> [conn, bs]: the query the broker has outstanding
     iask |-> {},            \* introspection: <<type id, connection, serial>> waiting for an answer
+    strangers |-> {},       \* channel cookies about which a connection owning neither end has sent a capacity grant (C11)
     sdi |-> FALSE, sdb |-> FALSE, stopped |-> FALSE,
     inp |-> NoInp, outs |-> <<>>, rems |-> <<>> ]
 
@@ -422,7 +423,10 @@ FxAddCapacity(S, c, m, outs) ==
   IF m.cookie \notin DOMAIN S.chans THEN NoFx(S)
   ELSE
     LET k == m.cookie  ch == S.chans[k] IN
-    IF ~(ch.rcv.st = "C" /\ ch.rcv.owner = c) \/ IsZero(m.cap) THEN NoFx(S)
+    IF ~(ch.rcv.st = "C" /\ ch.rcv.owner = c) \/ IsZero(m.cap)
+      \* not the receiver's owner: no effect; remembered, because a credit clause broken later on this
+      \* channel is then also "other connections affected by a message that is none of the sender's business"
+      THEN [NoFx(S) EXCEPT !.s = [S EXCEPT !.strangers = @ \cup (IF ch.rcv.st = "C" /\ ch.rcv.owner = c THEN {} ELSE {k})]]
     ELSE IF Overflows(Add(ch.rc, m.cap)) THEN
       \* a grant that would overflow closes only the receiver
       [NoFx(S) EXCEPT !.req = ClosedNote(k, ch, "Receiver"),
@@ -599,10 +603,14 @@ Cascade(S, Rem, dObjs0, dSvcs0) ==
       orphan == {key \in DOMAIN S.calls \ deadCalls : key[1] \in Rem}
       aborts == {<<"AbortFunctionCall", <<S.calls[key].callee, S.calls[key].b>>>> :
                    key \in {key \in orphan : S.calls[key].callee \in DOMAIN S.conns /\ S.conns[S.calls[key].callee] >= 16}}
-      zomb1 == [z \in (DOMAIN S.zomb \cup {<<S.calls[key].callee, S.calls[key].b>> : key \in orphan}) |->
+      \* a callee may still answer a call that the broker has ended -- because the caller vanished or because
+      \* the service went away while the callee lives on (a promise can outlive its service): until it does,
+      \* or goes away itself, the call's serial must not be handed to it again
+      ended == orphan \cup deadCalls
+      zomb1 == [z \in (DOMAIN S.zomb \cup {<<S.calls[key].callee, S.calls[key].b>> : key \in ended}) |->
                   IF z \in DOMAIN S.zomb THEN S.zomb[z]
-                  ELSE S.calls[CHOOSE key \in orphan : <<S.calls[key].callee, S.calls[key].b>> = z].svc]
-      zomb2 == Del(zomb1, {z \in DOMAIN zomb1 : zomb1[z] \in dSvcs})
+                  ELSE S.calls[CHOOSE key \in ended : <<S.calls[key].callee, S.calls[key].b>> = z].svc]
+      zomb2 == Del(zomb1, {z \in DOMAIN zomb1 : z[1] \in Rem})
       \* subscribers of dying services are told once (C04); all-events-only subscribers: statement silent
       sdReq == {<<"ServiceDestroyed", <<t[1], t[2]>>>> : t \in {t \in S.sub : t[2] \in dSvcs}}
                \cup {<<"ServiceDestroyed", <<t[1], t[2]>>>> : t \in {t \in S.ssub : t[2] \in dSvcs}}
@@ -797,7 +805,8 @@ Judge(S, st) ==
       \* C05: a sender that was announced more credit than the receiver granted will, by using it,
       \* either be cut off within its announced capacity or make the broker forward beyond the grant
       T5b == IF T5.ok /\ \E k \in DOMAIN T5.chans : T5.chans[k].snd.st = "C" /\ T5.chans[k].rcv.st = "C" /\ Gt(T5.chans[k].sc, T5.chans[k].rc)
-               THEN Bad(T5, "C05", "the sender has been announced more capacity than the receiver granted")
+               THEN Bad(T5, IF \E k \in DOMAIN T5.chans \cap T5.strangers : Gt(T5.chans[k].sc, T5.chans[k].rc) THEN "C05+C11" ELSE "C05",
+                        "the sender has been announced more capacity than the receiver granted")
                ELSE T5
       T6 == IF T5b.ok THEN DumpCheck(T5b, st) ELSE T5b
       \* C12: a callee older than 1.16 is never sent an abort; the broker itself ends the call and must
